@@ -507,9 +507,15 @@ def build_problem(c):
             kw["phantom_param"] = _num(a["pparam"][1])
     elif p in ("Heat1D", "Poisson1D") and _given(c, "exsol"):
         kw["exactSolution"] = x
-    elif p == "WangCubic" and _given(c, "wdata"):
+    if p == "WangCubic" and _given(c, "wdata"):
         v = a["wdata"][1]
         kw["data"] = {"int": _num(v), "float": float(v[0] / v[1]), "vec": np.array([v[0] / v[1]], dtype=float)}[c["wform"]]
+    if p in ("Heat1D", "Poisson1D", "Abel1D") and "ftype" in a:
+        # field options (Part D of the spec): field_type / field_params / map / imap (Abel1D: KL_map / KL_imap) / source
+        from cuqiverif import c17_field
+        fkw, fex = c17_field.field_kwargs(c)
+        kw.update(fkw)
+        extras.update(fex)
     with _quiet(), _scripted(Z) as st:
         if p == "Deconvolution1D":
             tp = cuqi.testproblem.Deconvolution1D(dim=n, BC=BC1DOC[c["bc"]], **kw)
@@ -547,6 +553,9 @@ def _pkey(c):
             key += "/%s=%s" % (k, _argkey(c, k))
     if c["wform"] != "na":
         key += "/wform=" + c["wform"]
+    if any(k in c["args"] and _given(c, k) for k in ("ftype", "fparams", "fmap", "fimap")):
+        from cuqiverif import c17_field
+        key += c17_field.field_key(c)
     return key
 
 
@@ -637,6 +646,10 @@ def check_problem(ctx, c, legacy_match):
         ctx.mismatch(sig("operator"), case, "the model is not the convolution with the GIVEN point-spread function "
                      "(given value: %s)" % ", ".join("%s=%s" % (k, _argkey(c, k)) for k in ("psf", "psfparam") if _given(c, k)),
                      expected=A_spec, observed=A_obs)
+    # --- Part D: the field options (geometry selection, map applied for every form of field_type) ---
+    if c.get("field", {}).get("fcase"):
+        from cuqiverif import c17_field
+        c17_field.check_field(ctx, c, tp, extras, key, case, _quiet, _scripted, _same_geom)
     # --- GetComponents ---
     comps = tp.get_components()
     model, data, info = comps
@@ -765,6 +778,11 @@ def check_problem(ctx, c, legacy_match):
     pv = _q(c["prior_var"])
     if p in ("Heat1D", "Poisson1D", "Abel1D"):
         pts = [np.ones(len(pm)), np.arange(1.0, len(pm) + 1), 1 + (np.arange(len(pm)) % 2)]
+        if p == "Poisson1D" and c.get("field", {}).get("fcase"):
+            # the Poisson operator is defined for a POSITIVE conductivity field (the sine expansions without a positive map
+            # produce fields of mixed sign: nothing is stated there)
+            with _quiet():
+                pts = [q for q in pts if np.all(np.asarray(tp.model.domain_geometry.par2fun(q), dtype=float) > 0)]
         pts = [(q, None, None) for q in pts]
     else:
         pts = [(np.array(e["x"], dtype=float), _qv(e["res"]) if e["res"] else None, _q(e["priorq"])) for e in c["logd"]]
@@ -808,9 +826,10 @@ DEVIATIONS = [("Conv", "Conv.deviation.cfg", "ColumnsAreConv", ()),
               ("TestProblems", "TestProblems.dev_OtherModelInstance.cfg", "SameModel", ("Conv.tla",)),
               ("TestProblems", "TestProblems.dev_GetComponentsCopiesData.cfg", "SameData", ("Conv.tla",)),
               ("TestProblems", "TestProblems.dev_OtherPhantom.cfg", "ExactDataIsModelOfExactSolution", ("Conv.tla",)),
-              ("TestProblems", "TestProblems.dev_TruthinessDefault.cfg", "GivenIsUsed", ("Conv.tla",))]
+              ("TestProblems", "TestProblems.dev_TruthinessDefault.cfg", "GivenIsUsed", ("Conv.tla",)),
+              ("TestProblems", "TestProblems.dev_GeometryObjectSkipsMap.cfg", "MapGivenIsApplied", ("Conv.tla",))]
 
-ACTIONS = ["ResolveOptions", "BuildModel", "MakeExact", "MakeDataDist", "SampleData", "MakeLikelihood", "Assemble", "GetComponents"]
+ACTIONS = ["ResolveOptions", "SelectGeometry", "BuildModel", "MakeExact", "MakeDataDist", "SampleData", "MakeLikelihood", "Assemble", "GetComponents"]
 
 
 def _named_sweep(tier):
@@ -929,6 +948,8 @@ def run(ctx):
     from cuqiverif.core import MachineryError
     tier = ctx.tier
     FALSY_SEEN.clear()
+    from cuqiverif import c17_field
+    c17_field.SEEN.clear()
     # 1. the specifications, model-checked
     rc = ctx.tlc("Conv", cfg="Conv.%s.cfg" % tier, workers=16, timeout=1500)
     ctx.model_must_hold(rc, "Conv")
@@ -950,6 +971,7 @@ def run(ctx):
     kinds = replay_models(ctx, rt.cases, tier)
     nb = replay_problems(ctx, kinds["problem"])
     check_option_table(ctx, kinds["options"][0])
+    c17_field.check_coverage(ctx)
     # 4. sequences of public operations on ONE test-problem object (specs/TestProblemsSeq.tla, facet seq/...)
     from cuqiverif import c17_seq
     nb += c17_seq.run_seq(ctx, tier)
